@@ -105,6 +105,18 @@ class Terms(object):
             return ('ce', v.op, tuple(self.term(o) for o in v.ops))
         return (k,)
 
+    def _can_reach(self, s, i):
+        if s.block is i.block and s.block.insts.index(s) < s.block.insts.index(i):
+            return True
+        c = self.__dict__.setdefault('_succ_reach', {})
+        r = c.get(s.block.id)
+        if r is None:
+            r = set()
+            for s2 in s.block.succs:
+                r |= self.fn.reachable(s2)
+            c[s.block.id] = r
+        return i.block.id in r
+
     def _gep(self, i):
         base = self.term(i.ops[0])
         for st in i.path:
@@ -133,6 +145,8 @@ class Terms(object):
             if self.forward and a[0] in ('field', 'elem', 'global', 'goff', 'alloca'):
                 st = self.stores_by_addr().get(a)
                 if st:
+                    # a store from which the load cannot be reached (it comes later and no cycle leads back) is irrelevant
+                    st = [s for s in st if self._can_reach(s, i)] or st
                     doms = [s for s in st if self.fn.dominates(s, i)]
                     if len(doms) == len(st):
                         # all stores dominate the load: they are totally ordered; take the last
@@ -470,6 +484,29 @@ def loop_range(fn, loop, terms):
         return None
     succ_t, succ_f = hdr.succs[0], hdr.succs[1]
     in_t, in_f = succ_t.id in loop.blocks, succ_f.id in loop.blocks
+    if in_t and in_f:
+        # `while (i < n && cond)` at -O0: the header's false edge enters a join block that only holds `phi i1 [false, header], ...`
+        # and branches on it; on the edge from the header that branch leaves the loop, so the edge is the loop's exit edge
+        def leaves_via_join(s2):
+            ph = s2.insts[0] if s2.insts else None
+            tb = s2.term()
+            if ph is None or ph.op != 'phi' or tb.op != 'br' or len(tb.ops) != 3:
+                return False
+            cv = strip_casts(tb.ops[0])
+            if not (cv.k == 'i' and cv.inst is ph):
+                return False
+            for bid, v in ph.incoming:
+                if bid == hdr.id:
+                    k = const_of(v)
+                    if k is None:
+                        return False
+                    tgt = s2.succs[0] if (k & 1) else s2.succs[1]
+                    return tgt.id not in loop.blocks
+            return False
+        if leaves_via_join(succ_f):
+            in_f = False
+        elif leaves_via_join(succ_t):
+            in_t = False
     if in_t == in_f:
         return None
     c = strip_casts(t.ops[0])
